@@ -192,14 +192,37 @@ def run(ck: Check, prog: Program) -> None:
                    'a batch-level error object must be raised for the batch')
 
 
+def result_iteration(prog: Program):
+    """(attribute iterated by BatchResponse.result, (reordering function, line, text) or None)."""
+    br = prog.func(V20 + '.BatchResponse.result')
+    it_attr = None
+    reorder = None
+    for x in walk_own(br.node):
+        if isinstance(x, (ast.For, ast.comprehension)):
+            it = x.iter
+            if dotted(it) and dotted(it).startswith('self.'):
+                it_attr = dotted(it)[5:]
+            elif isinstance(it, ast.Call) and dotted(it.func) in ('sorted', 'reversed', 'set', 'frozenset') and it.args and \
+                    dotted(it.args[0]) and dotted(it.args[0]).startswith('self.'):
+                it_attr = dotted(it.args[0])[5:]
+                reorder = (dotted(it.func), getattr(x, 'lineno', br.node.lineno), norm(it)[:80])
+            elif isinstance(it, ast.Subscript) and isinstance(it.slice, ast.Slice) and dotted(it.value) and dotted(it.value).startswith('self.'):
+                it_attr = dotted(it.value)[5:]
+                if it.slice.step is not None:
+                    reorder = ('a stepped slice', getattr(x, 'lineno', br.node.lineno), norm(it))
+    return it_attr, reorder
+
+
 def _order_by_request(ck: Check, prog: Program, brel: FuncInfo, bcfg: CFG, breq: str, bresp: str) -> None:
     """Somewhere on _relate → call → result the sequence handed back must be built/sorted by iterating the REQUEST batch."""
     # what does Batch.call hand back?  response.result of the BatchResponse -> iterates self._responses
     br = prog.func(V20 + '.BatchResponse.result')
-    it_attr = None
-    for x in walk_own(br.node):
-        if isinstance(x, (ast.For,)) and dotted(x.iter) and dotted(x.iter).startswith('self.'):
-            it_attr = dotted(x.iter)[5:]
+    it_attr, reorder = result_iteration(prog)
+    if reorder:
+        ck.finding('ORDER-BY-REQUEST', br.qualname, f'batch results re-ordered by {reorder[0]}', br.module.rel, reorder[1],
+                   f'BatchResponse.result iterates `{reorder[2]}`: the result tuple is ordered by {reorder[0]}, neither the order of the calls '
+                   f'nor even the server\'s array: results read by position are attributed to the wrong calls whenever that order differs '
+                   f'from the order the calls were made')
     if it_attr is None:
         raise AnalysisError(f'{br.qualname}: iteration over the stored responses not recognised')
     # order provenance of that attribute: from_json builds it from the server array in array order (C05 BATCH-FORM)
